@@ -68,7 +68,6 @@ impl MT291 {
 
         verify_parser_complete(&parser)?;
 
-
         Ok(MT291 {
             field_20,
             field_21,
